@@ -4,7 +4,8 @@
    inode type), create_file, remove_file/remove_dir arrive at exactly ONE tree-changing
    call, made on a descriptor open on the object the in-root walk of the parent path
    ends on, with path_split's last component as the name -- and at nothing else before. *)
-From PV Require Import Static PathProofs StaticProofs CheckProofs RootM ProgTac OpsProofs.
+From PV Require Import Static PathProofs StaticProofs CheckProofs RootM ProgTac OpsProofs FdBalance FdBalProofs RootBal OpathBal StaticBal.
+From Coq Require Import Permutation.
 From PV Require FSModel FSProofs.
 Open Scope N_scope.
 
@@ -141,6 +142,180 @@ Proof.
   destruct Hty as [ -> | [ -> | [ -> | -> ] ] ]; unfold root_create;
     match goal with |- context [w_mknodat fz _ _ ?mode ?d] => destruct (Hgen mode d) as (t1 & dir & Hdir & Hr) end;
     exists t1, dir; eexists; eexists; (split; [exact Hdir|exact Hr]).
+Qed.
+
+(* ---- the mode handed to mknodat: the inode kind comes from the InodeType alone ------- *)
+
+Definition node_type (ty : inode_type) : N :=
+  match ty with
+  | IFile _ => S_IFREG | IFifo _ => S_IFIFO | ICharDev _ _ => S_IFCHR | IBlockDev _ _ => S_IFBLK
+  | _ => 0
+  end.
+Definition node_raw (ty : inode_type) : N :=
+  match ty with IFile m | IFifo m | ICharDev m _ | IBlockDev m _ => m | _ => 0 end.
+Definition node_dev (ty : inode_type) : N :=
+  match ty with ICharDev _ d | IBlockDev _ d => d | _ => 0 end.
+
+Lemma type_perm_split k raw : N.land k S_IFMT = k ->
+  N.lor (N.land (N.lor k (perm raw)) S_IFMT) (N.land (N.lor k (perm raw)) MODE_BITS) = N.lor k (N.land raw MODE_BITS).
+Proof.
+  intro Hkm. unfold perm, without. apply N.bits_inj. intro n.
+  assert (Hkn : N.testbit k n = true -> N.testbit S_IFMT n = true).
+  { intro H. rewrite <- Hkm in H. rewrite N.land_spec in H. apply andb_true_iff in H. apply H. }
+  assert (Hdisj : N.testbit S_IFMT n = true -> N.testbit MODE_BITS n = false).
+  { intro H. assert (E : N.land S_IFMT MODE_BITS = 0) by reflexivity.
+    pose proof (f_equal (fun x => N.testbit x n) E) as E'. cbn beta in E'. rewrite N.land_spec, H, N.bits_0 in E'. exact E'. }
+  rewrite !N.lor_spec, !N.land_spec, !N.lor_spec, N.ldiff_spec.
+  destruct (N.testbit k n) eqn:Ek, (N.testbit S_IFMT n) eqn:Em, (N.testbit MODE_BITS n) eqn:Eb, (N.testbit raw n);
+    try reflexivity; try (specialize (Hkn eq_refl); discriminate); try (specialize (Hdisj eq_refl); discriminate).
+Qed.
+
+(* create(path, File / Fifo / CharacterDevice / BlockDevice): the mknodat call, exactly:
+   type bits = the InodeType's, permission bits = the caller's mode & 07777 (whatever
+   S_IFMT bits that mode word carries are dropped), device number as given *)
+Theorem create_node_reaches_exact t root path dirp name o ty :
+  node_type ty <> 0 ->
+  path_split path = Some (Ok (dirp, Some name)) -> has_nul dirp = false -> has_nul name = false ->
+  Frame s F t -> tget t root = Some ROOT ->
+  FSModel.ewalk s dirp false nosym = FSModel.WOk o ->
+  exists t1 dir, tget t1 dir = Some o /\
+    reaches s rp t (root_create fz o2 pfuel gh ps rs root path ty)
+            (Mknodat dir name (N.lor (node_type ty) (N.land (node_raw ty) MODE_BITS)) (node_dev ty)) t1.
+Proof.
+  intros Hty Hsplit Hnul Hnn Hfr Hroot Hw.
+  assert (Hgen : forall k raw d, N.land k S_IFMT = k ->
+    exists t1 dir, tget t1 dir = Some o /\
+      reaches s rp t (dn <-? parent_and_name fz o2 pfuel gh ps rs root path ;;
+                      let '(dir, name) := dn in r <- os (w_mknodat fz dir name (N.lor k (perm raw)) d) ;; close dir ;;; Ret r)
+              (Mknodat dir name (N.lor k (N.land raw MODE_BITS)) d) t1).
+  { intros k raw d Hkm.
+    destruct (reaches_after_parent
+                (fun dn => let '(dir, name) := dn in r <- os (w_mknodat fz dir name (N.lor k (perm raw)) d) ;; close dir ;;; Ret r)
+                t root path dirp name o Hsplit Hnul Hfr Hroot Hw) as (t1 & dir & Hdir & Hr).
+    exists t1, dir. split; [exact Hdir|]. apply Hr. cbn beta iota.
+    apply reaches_bind_here. unfold os, map_err. apply reaches_bind_here.
+    unfold w_mknodat, simple1, rustix_path. rewrite (tget_valid _ _ _ Hdir), Hnn. cbn [negb].
+    rewrite (type_perm_split k raw Hkm). apply reach_here. }
+  destruct ty as [m|m|tg|tg|m|m d|m d]; cbn [node_type] in Hty; try (exfalso; apply Hty; reflexivity);
+    cbn [node_type node_raw node_dev]; unfold root_create; apply Hgen; reflexivity.
+Qed.
+
+(* create(path, Symlink(target)): symlinkat(target, parent object, name) *)
+Theorem create_symlink_reaches t root path dirp name o target :
+  path_split path = Some (Ok (dirp, Some name)) -> has_nul dirp = false -> has_nul name = false -> has_nul target = false ->
+  Frame s F t -> tget t root = Some ROOT ->
+  FSModel.ewalk s dirp false nosym = FSModel.WOk o ->
+  exists t1 dir, tget t1 dir = Some o /\
+    reaches s rp t (root_create fz o2 pfuel gh ps rs root path (ISymlink target)) (Symlinkat target dir name) t1.
+Proof.
+  intros Hsplit Hnul Hnn Hnt Hfr Hroot Hw.
+  destruct (reaches_after_parent
+              (fun dn => let '(dir, name) := dn in r <- os (w_symlinkat fz target dir name) ;; close dir ;;; Ret r)
+              t root path dirp name o Hsplit Hnul Hfr Hroot Hw) as (t1 & dir & Hdir & Hr).
+  exists t1, dir. split; [exact Hdir|].
+  unfold root_create. apply Hr. cbn beta iota.
+  apply reaches_bind_here. unfold os, map_err. apply reaches_bind_here.
+  unfold w_symlinkat. rewrite (tget_valid _ _ _ Hdir), Hnt, Hnn. cbn [negb orb]. apply reach_here.
+Qed.
+
+(* create_file(path, flags, mode): openat(parent object, name, flags|O_CREAT|O_NOFOLLOW|..., mode & 07777) *)
+Theorem create_file_reaches t root path dirp name o flags mode :
+  path_split path = Some (Ok (dirp, Some name)) -> has_nul dirp = false -> has_nul name = false ->
+  Frame s F t -> tget t root = Some ROOT ->
+  FSModel.ewalk s dirp false nosym = FSModel.WOk o ->
+  exists t1 dir, tget t1 dir = Some o /\
+    reaches s rp t (root_create_file fz o2 pfuel gh ps rs root path flags mode)
+            (Openat dir name (N.lor (N.lor (N.lor (N.lor flags CREATE_FILE_FORCED) OPENAT_NOFOLLOW_FORCED) OPENAT_FORCED) O_LARGEFILE)
+                    (N.land mode MODE_BITS)) t1.
+Proof.
+  intros Hsplit Hnul Hnn Hfr Hroot Hw.
+  destruct (reaches_after_parent
+              (fun dn => let '(dir, name) := dn in
+                         r <- os (w_openat fz dir name (N.lor flags CREATE_FILE_FORCED) mode) ;; close dir ;;; Ret r)
+              t root path dirp name o Hsplit Hnul Hfr Hroot Hw) as (t1 & dir & Hdir & Hr).
+  exists t1, dir. split; [exact Hdir|].
+  unfold root_create_file. apply Hr. cbn beta iota.
+  apply reaches_bind_here. unfold os, map_err. apply reaches_bind_here.
+  unfold w_openat, w_openat_follow, rustix_path. rewrite (tget_valid _ _ _ Hdir), Hnn. cbn [negb]. apply reach_here.
+Qed.
+
+(* ---- operations with two parents: the first parent's descriptor survives the second walk *)
+
+Lemma tget_indom t fd ob : tget t fd = Some ob -> indom t fd.
+Proof. unfold tget, indom. destruct (Z.ltb fd 0); [discriminate|]. intros H E. rewrite E in H. discriminate. Qed.
+
+Lemma tget_keep t t1 fd ob : tget t fd = Some ob -> (forall x, indom t x -> tfind t1 x = tfind t x) -> tget t1 fd = Some ob.
+Proof.
+  intros H Hkp. pose proof (Hkp fd (tget_indom _ _ _ H)) as E. unfold tget in *. destruct (Z.ltb fd 0); [discriminate|].
+  rewrite E. exact H.
+Qed.
+
+(* parent_and_name, with what it leaves of the table: everything that was open stays as it was *)
+Lemma parent_strong t root path dirp name o :
+  path_split path = Some (Ok (dirp, Some name)) -> has_nul dirp = false ->
+  Frame s F t -> tget t root = Some ROOT ->
+  FSModel.ewalk s dirp false nosym = FSModel.WOk o ->
+  exists t1 dir, run s rp t (parent_and_name fz o2 pfuel gh ps rs root path) = Done t1 (Ok (dir, name)) /\
+    tget t1 dir = Some o /\ Frame s F t1 /\ tget t1 root = Some ROOT /\
+    (forall x, indom t x -> tfind t1 x = tfind t x) /\
+    (forall x, indom t1 x -> indom t x \/ x = dir).
+Proof.
+  intros Hsplit Hnul Hfr Hroot Hw.
+  pose proof (parent_and_name_static s rp F fz o2 pfuel gh ps df rs t root path dirp name Hcl Hfz Hchk Hwf Hl Hk Hsplit Hnul Hfr Hroot) as H.
+  rewrite Hw in H. destruct H as (t1 & dir & Hrun & Hdir).
+  pose proof (parent_and_name_bal fz o2 pfuel gh ps rs (emu_res_ok fz o2 pfuel gh ps rs Hk) root path []) as Hb.
+  destruct (bal_run s rp _ _ [] t t1 _ Hb Hrun (NoDup_nil _) ltac:(intros n [])) as (o' & HR & _ & _ & Hkeep & Honly).
+  hnf in HR.
+  assert (Hkeep' : forall x, indom t x -> tfind t1 x = tfind t x) by (intros x Hx; apply Hkeep; [exact Hx|intros []]).
+  exists t1, dir. split; [exact Hrun|]. split; [exact Hdir|]. split; [|split; [|split]].
+  - intros fd p Hin. destruct (Hfr fd p Hin) as [Hg Hp]. split; [exact (tget_keep _ _ _ _ Hg Hkeep')|exact Hp].
+  - exact (tget_keep _ _ _ _ Hroot Hkeep').
+  - exact Hkeep'.
+  - intros x Hx. destruct (Honly x Hx) as [[Hin _]|Hin]; [left; exact Hin|right].
+    apply (Permutation_in _ HR) in Hin. destruct Hin as [E|[]]. symmetry. exact E.
+Qed.
+
+(* rename(src, dst, flags): renameat / renameat2 on (source parent object, name, destination parent object, name) *)
+Theorem rename_reaches t root src dst sdirp sname ddirp dname o1 o3 fl :
+  path_split src = Some (Ok (sdirp, Some sname)) -> has_nul sdirp = false -> has_nul sname = false ->
+  path_split dst = Some (Ok (ddirp, Some dname)) -> has_nul ddirp = false -> has_nul dname = false ->
+  Frame s F t -> tget t root = Some ROOT ->
+  FSModel.ewalk s sdirp false nosym = FSModel.WOk o1 -> FSModel.ewalk s ddirp false nosym = FSModel.WOk o3 ->
+  exists t2 d1 d2, tget t2 d1 = Some o1 /\ tget t2 d2 = Some o3 /\
+    reaches s rp t (root_rename fz o2 pfuel gh ps rs root src dst fl)
+            (if N.eqb fl 0 then Renameat d1 sname d2 dname else Renameat2 d1 sname d2 dname fl) t2.
+Proof.
+  intros Hs1 Hn1 Hnn1 Hs2 Hn2 Hnn2 Hfr Hroot Hw1 Hw2.
+  destruct (parent_strong t root src sdirp sname o1 Hs1 Hn1 Hfr Hroot Hw1) as (t1 & d1 & Hrun1 & Hd1 & Hfr1 & Hroot1 & _ & _).
+  destruct (parent_strong t1 root dst ddirp dname o3 Hs2 Hn2 Hfr1 Hroot1 Hw2) as (t2 & d2 & Hrun2 & Hd2 & _ & _ & Hkeep2 & _).
+  pose proof (tget_keep _ _ _ _ Hd1 Hkeep2) as Hd1'.
+  exists t2, d1, d2. split; [exact Hd1'|]. split; [exact Hd2|].
+  unfold root_rename, bindR. eapply reaches_bind_done; [exact Hrun1|]. cbn beta iota.
+  eapply reaches_bind_done; [exact Hrun2|]. cbn beta iota.
+  apply reaches_bind_here. unfold os, map_err. apply reaches_bind_here.
+  unfold w_renameat2, w_renameat, two_fd.
+  destruct (N.eqb fl 0); rewrite (tget_valid _ _ _ Hd1'), (tget_valid _ _ _ Hd2), Hnn1, Hnn2; cbn [negb orb]; apply reach_here.
+Qed.
+
+(* create(path, Hardlink(target)): linkat(target's parent object, its name, path's parent object, name) *)
+Theorem create_hardlink_reaches t root path target dirp name tdirp tname o1 o3 :
+  path_split path = Some (Ok (dirp, Some name)) -> has_nul dirp = false -> has_nul name = false ->
+  path_split target = Some (Ok (tdirp, Some tname)) -> has_nul tdirp = false -> has_nul tname = false ->
+  Frame s F t -> tget t root = Some ROOT ->
+  FSModel.ewalk s dirp false nosym = FSModel.WOk o1 -> FSModel.ewalk s tdirp false nosym = FSModel.WOk o3 ->
+  exists t2 d1 d2, tget t2 d1 = Some o1 /\ tget t2 d2 = Some o3 /\
+    reaches s rp t (root_create fz o2 pfuel gh ps rs root path (IHardlink target)) (Linkat d2 tname d1 name LINKAT_FLAGS) t2.
+Proof.
+  intros Hs1 Hn1 Hnn1 Hs2 Hn2 Hnn2 Hfr Hroot Hw1 Hw2.
+  destruct (parent_strong t root path dirp name o1 Hs1 Hn1 Hfr Hroot Hw1) as (t1 & d1 & Hrun1 & Hd1 & Hfr1 & Hroot1 & _ & _).
+  destruct (parent_strong t1 root target tdirp tname o3 Hs2 Hn2 Hfr1 Hroot1 Hw2) as (t2 & d2 & Hrun2 & Hd2 & _ & _ & Hkeep2 & _).
+  pose proof (tget_keep _ _ _ _ Hd1 Hkeep2) as Hd1'.
+  exists t2, d1, d2. split; [exact Hd1'|]. split; [exact Hd2|].
+  unfold root_create, bindR. eapply reaches_bind_done; [exact Hrun1|]. cbn beta iota.
+  eapply reaches_bind_done; [exact Hrun2|]. cbn beta iota.
+  apply reaches_bind_here. unfold os, map_err. apply reaches_bind_here.
+  unfold w_linkat, two_fd.
+  rewrite (tget_valid _ _ _ Hd2), (tget_valid _ _ _ Hd1'), Hnn2, Hnn1; cbn [negb orb]; apply reach_here.
 Qed.
 
 End OPS.
